@@ -165,6 +165,8 @@ def classify_msg(msg, d, unit, fn, text, line_off):
     if "underflow/overflow" in m or "division by zero" in m or "arithmetic" in m or "bit shift" in m:
         clause = sp["text"][0]["text"].strip() if sp.get("text") else ""
         return "arith", "[%s]" % clause
+    if "must have a decreases clause" in m or "decreases clause is required" in m:
+        return None, None      # a loop the proof script gives no measure for (e.g. a `for` rewritten as `while`): a gap in the script, UNDECIDED
     if "decreases" in m or "termination" in m:
         return "term", ""
     if "recommendation not met" in m:
